@@ -310,6 +310,15 @@ def _cases(chk):
                 for a in ab:
                     for b in ab:
                         add(kind, train, ['forward', a, b, 'cost' if rng.random() < 0.5 else 'getcost'])
+        # every ordered triple, each on a randomly configured wrapper of a random kind of the method
+        for method in ('pit', 'mps', 'sn'):
+            ab = alphabet(method)
+            kinds = [k for k in om.KINDS if om.METHOD[k] == method]
+            for a in ab:
+                for b in ab:
+                    for c in ab:
+                        add(rng.choice(kinds), rng.randrange(2), ['forward', a, b, c],
+                            **({'disable': True} if method == 'mps' and rng.random() < 0.15 else {}))
     return items
 
 
@@ -317,7 +326,7 @@ def run(chk):
     chk.rule = ('walks = initial forward + <= 5 calls drawn from the alphabet (observers weighted up), on 6 '
                 'architecture kinds x train/eval x random (gumbel, hard, full_cost, dropout, single/dict spec, MPS '
                 'sampling disabled), plus fixed walks (export/summary in the middle of training, specification '
-                'round trips); thorough adds every ordered pair of calls per kind and mode. non-trivial = walk with '
+                'round trips); thorough adds every ordered pair of calls per kind and mode and every ordered triple per method. non-trivial = walk with '
                 'at least one observer call; distinct = distinct (architecture spec, mode, call sequence)')
     chk.trusted += ['harness/fingerprint.py: the fingerprint reads state_dict tensors, per-module flags, instance '
                     'attributes and the torch RNG state; it restores what its own probing forward disturbs',
